@@ -135,6 +135,9 @@ def tree_source(root):
                     src.add(ind + 1, "await trio.lowlevel.checkpoint()")
                 elif task["how"] == "thread":
                     src.add(ind, f"await trio.to_thread.run_sync(W.tpark, {tid})")
+                elif task["how"] == "pingpong":
+                    # same-named sibling tasks each in to_thread(one fn) -> from_thread.run(one afn)
+                    src.add(ind, f"await trio.to_thread.run_sync(W.tpp, {tid})")
                 else:
                     src.add(ind, "await W.gate.wait()")
             else:
@@ -308,6 +311,7 @@ class World:
         self.token = None
         self.start_obj = None
         self.full_limiter = trio.CapacityLimiter(1)
+        self.pp_parked = set()
         self.ns = None
 
     # --- called by generated code
@@ -354,6 +358,15 @@ class World:
         self.tlock.acquire()
         self.tlock.release()
 
+    def tpp(self, tid):
+        """worker of a tree task in a one-level ping-pong: re-enters its host task"""
+        self.seg_thread[("t", tid)] = (threading.current_thread(), sys._getframe(0))
+        self.trio.from_thread.run(self.app, tid)
+
+    async def app(self, tid):
+        self.pp_parked.add(tid)
+        await self.gate.wait()
+
     def hop(self, k):
         hops = self.desc["hops"]
         return hops[k] if k < len(hops) else self.desc["end"]
@@ -388,7 +401,7 @@ class World:
         by the call's own arguments (shared functions) or by the function's identity"""
         args = frame.f_locals.get("args") or ()
         fn = frame.f_locals.get(fn_local)
-        if getattr(fn, "__func__", None) is World.tpark and len(args) == 1:
+        if getattr(fn, "__func__", None) in (World.tpark, World.tpp) and len(args) == 1:
             return ("t", args[0])
         if len(args) >= 2 and isinstance(args[1], int):
             return args[1]
@@ -715,6 +728,14 @@ class World:
                         return f"{path}: Trio trap plumbing ({fr.pyframe.f_code.co_name}) is visible past the blocking point"
                     if q != len(stack.frames) - 1:
                         return f"{path}: frames extracted inward of the trap {fr.pyframe.f_code.co_name}"
+            # a task parked in to_thread.run_sync shows ITS OWN worker: the marker argument of the
+            # worker function (and of the coroutine it called back into the task) is the task's id
+            mine = self.task_ids.get(id(task))
+            for fr in stack.frames:
+                if fr.pyframe.f_code in (World.tpark.__code__, World.tpp.__code__, World.app.__code__):
+                    if fr.pyframe.f_locals.get("tid") != mine:
+                        return (f"{path}: the worker-thread frames shown for task {mine} belong to the "
+                                f"to_thread.run_sync call of task {fr.pyframe.f_locals.get('tid')}")
             got = [c for f in stack.frames for c in f.contexts if isinstance(c.obj, trio.Nursery)]
             if nurs_expected is not None:
                 if [id(c.obj) for c in got] != [id(n) for n in nurs_expected]:
@@ -820,8 +841,17 @@ def count_tasks(task):
     return n, p
 
 
+def count_how(task, how):
+    n = int(task["block"] == "body" and task["how"] == how)
+    for fr in task["frames"]:
+        for c in fr["ctxs"]:
+            for k in c.get("kids", []):
+                n += count_how(k, how)
+    return n
+
+
 def count_thread_parked(task):
-    n = int(task["block"] == "body" and task["how"] == "thread")
+    n = int(task["block"] == "body" and task["how"] in ("thread", "pingpong"))
     for fr in task["frames"]:
         for c in fr["ctxs"]:
             for k in c.get("kids", []):
@@ -886,6 +916,9 @@ def run(desc):
                             await trio.testing.wait_all_tasks_blocked()
                         want = count_thread_parked(desc["root"])
                         while sum(1 for k in W.seg_thread if isinstance(k, tuple)) < want:
+                            await trio.sleep(0.001)
+                        npp = count_how(desc["root"], "pingpong")
+                        while len(W.pp_parked) < npp:
                             await trio.sleep(0.001)
                         if want:
                             if polls:
